@@ -65,4 +65,16 @@ def encode (tbl : List Line) : Nat → List Char → Option (List Nat)
       | some (code, n) => (encode tbl fuel (s.drop n)).map (code ++ ·)
       | none => encode tbl fuel (s.drop 1)
 
+/-- the texts of the entries matched while encoding `s` (escapes contribute nothing), in order -/
+def matched (tbl : List Line) : Nat → List Char → List Char
+  | 0, _ => []
+  | fuel+1, s =>
+    if s.isEmpty then [] else
+    match escape s with
+    | some (_, n) => matched tbl fuel (s.drop n)
+    | none =>
+      match longest tbl s with
+      | some (_, n) => s.take n ++ matched tbl fuel (s.drop n)
+      | none => matched tbl fuel (s.drop 1)
+
 end A816.Spec.Table
